@@ -433,6 +433,108 @@ var Scenarios = []Scenario{
 		})
 		return out
 	}},
+	{Name: "F15-rejected-batch-call-leaves-world-locked", Props: []string{"C10", "C07", "C06"}, Run: func() []string {
+		var out []string
+		check := func(name string, call func(w *ecs.World, a *ecs.Map1[u.P8], b *ecs.Map1[u.P4], r *ecs.Map1[u.R0], all ecs.Batch, p ecs.Entity)) {
+			w := ecs.NewWorld(4)
+			a, b, r := ecs.NewMap1[u.P8](w), ecs.NewMap1[u.P4](w), ecs.NewMap1[u.R0](w)
+			p := w.NewEntity()
+			a.NewEntity(&u.P8{V: 1})
+			e := a.NewEntity(&u.P8{V: 2})
+			b.Add(e, &u.P4{V: 3})
+			before := len(ents(w))
+			if try(func() { call(w, a, b, r, ecs.NewFilter1[u.P8](w).Batch(), p) }) == nil {
+				out = append(out, name+": the invalid batch request did not panic")
+			}
+			if w.IsLocked() {
+				out = append(out, name+": world is locked after recovering from the rejected batch call")
+			}
+			if p := try(func() { w.RemoveEntity(w.NewEntity()) }); p != nil {
+				out = append(out, fmt.Sprintf("%s: ordinary operation afterwards panics: %v", name, p))
+			}
+			if n := len(ents(w)); n != before {
+				out = append(out, fmt.Sprintf("%s: %d entities after the rejected call, %d before", name, n, before))
+			}
+		}
+		check("AddBatch of a component some selected entities have", func(w *ecs.World, a *ecs.Map1[u.P8], b *ecs.Map1[u.P4], r *ecs.Map1[u.R0], all ecs.Batch, p ecs.Entity) {
+			b.AddBatch(all, &u.P4{V: 9})
+		})
+		check("RemoveBatch of a component some selected entities lack", func(w *ecs.World, a *ecs.Map1[u.P8], b *ecs.Map1[u.P4], r *ecs.Map1[u.R0], all ecs.Batch, p ecs.Entity) {
+			b.RemoveBatch(all, nil)
+		})
+		check("AddBatch of a relation component without target", func(w *ecs.World, a *ecs.Map1[u.P8], b *ecs.Map1[u.P4], r *ecs.Map1[u.R0], all ecs.Batch, p ecs.Entity) {
+			r.AddBatch(all, &u.R0{})
+		})
+		check("SetRelationsBatch for entities without the relation component", func(w *ecs.World, a *ecs.Map1[u.P8], b *ecs.Map1[u.P4], r *ecs.Map1[u.R0], all ecs.Batch, p ecs.Entity) {
+			r.SetRelationsBatch(all, nil, ecs.RelIdx(0, p))
+		})
+		return out
+	}},
+	{Name: "F17-observer-reused-in-another-world", Props: []string{"C08"}, Run: func() []string {
+		var out []string
+		w1 := ecs.NewWorld(4)
+		ecs.ComponentID[u.P4](w1) // other IDs than in w2
+		ecs.ComponentID[u.P8](w1)
+		w2 := ecs.NewWorld(4)
+		n := 0
+		obs := ecs.Observe(ecs.OnAddComponents).For(ecs.C[u.P8]()).Do(func(ecs.Entity) { n++ })
+		obs.Register(w1)
+		obs.Unregister(w1)
+		obs.Register(w2)
+		m := ecs.NewMap1[u.P8](w2)
+		m.Add(w2.NewEntity(), &u.P8{V: 1})
+		if n != 1 {
+			out = append(out, fmt.Sprintf("observer For(P8) registered in a second world fired %d times for an added P8, want 1", n))
+		}
+		ecs.NewMap1[u.P4](w2).Add(w2.NewEntity(), &u.P4{V: 1})
+		if n != 1 {
+			out = append(out, fmt.Sprintf("observer For(P8) fired for an added P4 (calls %d)", n))
+		}
+		return out
+	}},
+	{Name: "F18-relation-named-twice-hides-omitted-target", Props: []string{"C10", "C04"}, Run: func() []string {
+		var out []string
+		w := ecs.NewWorld(4)
+		t1, t2 := w.NewEntity(), w.NewEntity()
+		m := ecs.NewMap2[u.R0, u.R1](w)
+		before := len(ents(w))
+		if try(func() { m.NewEntity(&u.R0{}, &u.R1{}, ecs.Rel[u.R0](t1), ecs.Rel[u.R0](t2)) }) == nil {
+			out = append(out, "Map2[R0,R1].NewEntity with R0 named twice and no target for R1 did not panic")
+		}
+		if try(func() { m.NewEntity(&u.R0{}, &u.R1{}, ecs.RelIdx(0, t1), ecs.RelIdx(0, t1)) }) == nil {
+			out = append(out, "Map2[R0,R1].NewEntity with the same R0 target twice and no target for R1 did not panic")
+		}
+		e := w.NewEntity()
+		if try(func() { m.Add(e, &u.R0{}, &u.R1{}, ecs.Rel[u.R1](t1), ecs.Rel[u.R1](t2)) }) == nil {
+			out = append(out, "Map2[R0,R1].Add with R1 named twice and no target for R0 did not panic")
+		}
+		if n := len(ents(w)); n != before+1 {
+			out = append(out, fmt.Sprintf("%d entities after the rejected calls, want %d", n, before+1))
+		}
+		// the complete form still works, in any order
+		if p := try(func() { m.NewEntity(&u.R0{}, &u.R1{}, ecs.Rel[u.R1](t2), ecs.Rel[u.R0](t1)) }); p != nil {
+			out = append(out, fmt.Sprintf("complete relation arguments rejected: %v", p))
+		}
+		return out
+	}},
+	{Name: "F19-handles-of-entities-removed-by-reset", Props: []string{"C16", "C02", "C17"}, Run: func() []string {
+		var out []string
+		w := ecs.NewWorld(4)
+		var old []ecs.Entity
+		for i := 0; i < 6; i++ {
+			old = append(old, w.NewEntity())
+		}
+		w.RemoveEntity(old[2])
+		old = append(old, w.NewEntity()) // a recycled one
+		w.Reset()
+		w.NewEntity()
+		for _, h := range old[1:] { // old[0] has the ID that is in use again
+			if w.Alive(h) {
+				out = append(out, fmt.Sprintf("handle %v of an entity removed by Reset is reported alive", h))
+			}
+		}
+		return out
+	}},
 }
 
 // maxComponentIDs registers filler component types until the registry is full and returns all IDs.
